@@ -6,7 +6,7 @@
      since       rv -> instant from which the value is due for its first read (connection or registration, whichever is later)
      nread       rv -> reads started since `since`
      lastStart, lastEnd, lastUpd   rv -> instant of the last read start / read end / state update (-1: none)
-     gone        [conn |-> instant of the last connection loss, rv -> instant of its last unregistration] (-1: none): a read decided
+     gone        [conn |-> instant of the last connection loss, rv -> instant of its last unregistration, upd -> instant of the update before the last] (-1: none): a read decided
                  before and issued within TOL of that instant counts as simultaneous
      inprog      reads in progress (GroupValueRead issued, answer or timeout still awaited), as a bag rv -> count *)
 EXTENDS Integers, FiniteSets
@@ -16,7 +16,7 @@ vars == <<connected, reg, since, nread, lastStart, lastEnd, lastUpd, inprog, gon
 None == -1
 Init == /\ connected = FALSE /\ reg = [r \in {} |-> 0] /\ since = [r \in RV |-> None] /\ nread = [r \in RV |-> 0]
         /\ lastStart = [r \in RV |-> None] /\ lastEnd = [r \in RV |-> None] /\ lastUpd = [r \in RV |-> None]
-        /\ inprog = [r \in RV |-> 0] /\ gone = [conn |-> None, rv |-> [r \in RV |-> None]]
+        /\ inprog = [r \in RV |-> 0] /\ gone = [conn |-> None, rv |-> [r \in RV |-> None], upd |-> [r \in RV |-> None]]
 Registered == DOMAIN reg
 Max(a, b) == IF a > b THEN a ELSE b
 InProgress == LET S == {r \in RV : inprog[r] > 0} IN
@@ -34,13 +34,17 @@ Register(r, ty, iv, t) == /\ reg' = [x \in Registered \cup {r} |-> IF x = r THEN
 Unregister(r, t) == /\ reg' = [x \in Registered \ {r} |-> reg[x]] /\ since' = [since EXCEPT ![r] = None]
                     /\ gone' = [gone EXCEPT !.rv[r] = IF r \in Registered THEN t ELSE @]
                     /\ UNCHANGED <<connected, nread, lastStart, lastEnd, lastUpd, inprog>>
-Update(r, t) == lastUpd' = [lastUpd EXCEPT ![r] = t] /\ UNCHANGED <<connected, reg, since, nread, lastStart, lastEnd, inprog, gone>>
+\* (gone.upd[r]: the update before this one - an update arriving at the very instant a read falls due does not cancel that read)
+Update(r, t) == /\ lastUpd' = [lastUpd EXCEPT ![r] = t] /\ gone' = [gone EXCEPT !.upd[r] = lastUpd[r]]
+                /\ UNCHANGED <<connected, reg, since, nread, lastStart, lastEnd, inprog>>
 \* ---- C35: when a read may be issued
 Policy(r, t) ==
   IF nread[r] = 0 THEN TRUE                                         \* the read of this (re)connection
   ELSE CASE reg[r].type = "init"   -> FALSE                         \* never again
          [] reg[r].type = "every"  -> t >= lastStart[r] + reg[r].iv - TOL
-         [] reg[r].type = "expire" -> t >= Max(lastStart[r], lastUpd[r]) + reg[r].iv - TOL   \* a full interval without update
+         [] reg[r].type = "expire" -> \/ t >= Max(lastStart[r], lastUpd[r]) + reg[r].iv - TOL   \* a full interval without update
+                                      \/ /\ lastUpd[r] # None /\ t <= lastUpd[r] + TOL /\ gone.upd[r] # None          \* ... or due, with an update arriving at this very instant
+                                         /\ t >= Max(lastStart[r], gone.upd[r]) + reg[r].iv - TOL
 Simultaneous(t, g) == g # None /\ t <= g + TOL
 ReadStart(r, t) == /\ InProgress < MAXPAR                           \* at most two reads in progress
                    /\ IF connected /\ r \in Registered THEN Policy(r, t)
